@@ -193,3 +193,51 @@ def validate_load(ctx, streams):
         ctx.count("corr:" + q.split()[0])
         if e != g:
             ctx.mismatch(q.split()[0], q[:160], e[:300], g[:300])
+
+
+def validate_local(ctx):
+    """tzlocal.__init__ / __eq__ (Generated/TzFixedKernels.lean, op tzhelp.local) under TZ settings applied with tzset: the `time` module's
+    values are the input of the translated constructor"""
+    import time, os
+    from dateutil import tz
+    if not hasattr(time, "tzset"):
+        ctx.count("tzhelp.local_skipped_no_tzset"); return
+    reqs, exp = [], []
+    old = os.environ.get("TZ")
+    try:
+        for env in ("UTC", "GMT0", "EST5EDT", "XYZ3", "AAA-5:30", "CET-1CEST,M3.5.0,M10.5.0/3", "NZST-12NZDT,M9.5.0,M4.1.0/3", "QQQ4QQD3"):
+            os.environ["TZ"] = env; time.tzset()
+            z = tz.tzlocal()
+            sec = lambda td: td.days * 86400 + td.seconds
+            so, do = sec(z._std_offset), sec(z._dst_offset)
+            n0 = time.tzname[0]
+            others = [tz.tzutc(), tz.tzoffset(n0, so), tz.tzoffset("Q", so), tz.tzoffset(n0, so + 1), tz.tzlocal()]
+            os.environ["TZ"] = "ZZZ%d:%02d" % ((-(so + 60)) // 3600, ((-(so + 60)) % 3600) // 60) if (so + 60) % 60 == 0 and -86400 < so + 60 < 86400 else env
+            time.tzset()
+            shifted = tz.tzlocal()
+            if sec(shifted._std_offset) != so + 60 or shifted._hasdst:
+                shifted = None
+            os.environ["TZ"] = env; time.tzset()
+            row = [_tri(lambda o=o: type(z).__eq__(z, o)) for o in others]
+            row.append(_tri(lambda: type(z).__eq__(z, shifted)) if shifted is not None and do == sec(shifted._dst_offset) else None)
+            row.append(_tri(lambda: type(z).__eq__(z, tz.tzfile("/usr/share/zoneinfo/Europe/Paris"))))
+            line = "ok %d,%d,%d,%d,%s,%s %s %s" % (so, do, sec(z._dst_saved), int(z._hasdst), Z.hexs(z._tznames[0]), Z.hexs(z._tznames[1]),
+                                                ",".join("?" if r is None else r for r in row), _class_facts(tz.tzlocal))
+            reqs.append("tzhelp.local %d %d %d %s %s" % (time.timezone, time.altzone, time.daylight, Z.hexs(time.tzname[0]), Z.hexs(time.tzname[1])))
+            exp.append(line)
+    finally:
+        if old is None: os.environ.pop("TZ", None)
+        else: os.environ["TZ"] = old
+        time.tzset()
+    got = ctx.driver(reqs)
+    for q, e, g in zip(reqs, exp, got):
+        ctx.traces += 1
+        ctx.count("corr:tzhelp.local")
+        ge = g.split(" ")
+        ee = e.split(" ")
+        if len(ge) == len(ee) == 4:                        # a "?" in the expected eq row: that comparison could not be set up
+            gr, er = ge[2].split(","), ee[2].split(",")
+            if len(gr) == len(er):
+                ge[2] = ",".join("?" if b == "?" else a for a, b in zip(gr, er))
+        if ee != ge:
+            ctx.mismatch("tzhelp.local", q[:120], e[:300], g[:300])
